@@ -931,6 +931,15 @@ class Evaluator:
                 m = self._match_pat(s["pat"], v, env)
                 if m is False:
                     self.eval(s["els"], env, st)
+                elif m is None:
+                    # not known whether the pattern holds: what the else block returns is a possible result of the function
+                    # as well (`let Some(pos) = .. else { return false }; ..; true` is not simply `true`)
+                    try:
+                        self.eval(s["els"], dict(env), st)
+                    except _Return as r_:
+                        st["early"].append(r_.value)
+                    except Exception:
+                        pass
                 return None
             if v is None and isinstance(s.get("init"), dict):
                 self._note_unknown([q["name"] for q in hirq.walk(s["pat"]) if isinstance(q, dict) and q.get("p") == "bind"], s["init"], env)
